@@ -40,6 +40,10 @@ func drawC11(t *rapid.T) C11Case {
 	c.M.Level = rapid.SampledFrom([]int{-2, -1, 1, 2, 2, 6, 0}).Draw(t, "level")
 	// data and a Write/Flush sequence with at least one Flush
 	n := gen.DrawLen(t, "total", 40<<10)
+	if rapid.IntRange(0, 3).Draw(t, "past64k") == 0 {
+		// output beyond the 64 KiB history buffer: the decoder stops for lack of output room
+		n = rapid.SampledFrom([]int{65536, 131072, 65536 + 4096}).Draw(t, "bigT") + rapid.IntRange(-16, 64).Draw(t, "bigd")
+	}
 	c.M.Data = gen.DrawRecipeN(t, n)
 	nf := rapid.IntRange(1, 4).Draw(t, "nflush")
 	var fl []int
